@@ -1,6 +1,6 @@
 SPECIFICATION Spec
 CONSTANTS
-  Families = {"wire", "mix2", "mix3"}
+  Families = {"wire"}
   Big = TRUE
   Faithful = FALSE
 INVARIANTS TypeOK CarriesSame RefIsEncoding EncodingIndependent ViewDiffLocal DevOnlyWhereViewsDiffer DecoderFacts
